@@ -115,7 +115,8 @@ def rqBranches (j : Json) (r : Rq) : List String :=
   let nPath := r.op.pathParams.length
   -- what the operation declares at all (the sole-constraint cells)
   let sole :=
-    if hasSecDoc && !hasSecOp && nOp == 0 && nPath == 0 && !r.op.hasBody then ["rq.sole.security.doc"]
+    if isNull j "rq" then []   -- the older family (one required query parameter `q`) is the default shape
+    else if hasSecDoc && !hasSecOp && nOp == 0 && nPath == 0 && !r.op.hasBody then ["rq.sole.security.doc"]
     else if hasSecOp && !hasSecDoc && nOp == 0 && nPath == 0 && !r.op.hasBody then ["rq.sole.security.op"]
     else if !hasSecOp && !hasSecDoc && nOp == 1 && nPath == 0 && !r.op.hasBody then
       ["rq.sole.param.op." ++ String.join (r.op.opParams.take 1 |>.map (fun p => inStr p.loc))]
